@@ -216,3 +216,22 @@ check("C05", "fault_enumeration",
            "count replacement) and the outcome of all helper futures is observed: an honest helper must fail or never produce output, "
            "or the honest helpers' rows must still be the input multiset. Honest runs over all small shapes must preserve the multiset.",
       note="Bounds: <= 6 (12) rows, <= 5 shards; tamper runs on 3 rows with 1-2 shards.")
+
+check("C04", "fault_enumeration",
+      "drivers: (D1) upgrade two inputs, multiply, validate_record, open, over Fp31 (1 and 3 records) and Fp32BitPrime (2 records); "
+      "(D2) the vectorised pseudonym evaluation eval_dy_prf over Fp25519 with 16 lanes and with 1 lane. Census of every "
+      "helper-to-helper channel (upgrade, both multiplications, u/w propagation, r opening, check-zero, final opening), run twice; "
+      "one run per (channel, chunk, element, additive error): e in {1,2,15,30} (all 30 in thorough) for 1-byte elements, "
+      "{1,2,p-1,(p+1)/2} for 4-byte elements, {+1,+2,+2^32-1,-1} per Fp25519 lane and cross-lane cancelling pairs (+e,-e); each "
+      "helper is the corrupt sender in turn. distinct_nontrivial = faults whose interceptor changed a byte.",
+      [{"name": "mac", "config": "A", "test": "verif::c04::run", "timeout": {"quick": 900, "thorough": 7200},
+        "require": {"any": {"tamper_rejected": 100, "honest_runs": 5, "channels_in_census": 30, "two_message_strategies": 12}}}],
+      assumptions=["acceptance of a forged MAC with probability ~1/|extension field| is not explored (seeds fixed)",
+                   "one fault per run, plus the listed two-message strategies (cross-lane cancelling error on the multiplication message together with the matching patch of the corrupt helper's opening message) for the vectorised driver; the corrupt helper's own state is not altered, only what it sends"],
+      exhaustive=True, engine="E3 fault",
+      technique="channel census + exhaustive single-fault (additive error per element, cross-lane pairs) enumeration on real "
+                "three-helper executions through the repository's StreamInterceptor",
+      text="Every element of every message of the MAC-protected upgrade / multiply / validate / open pipeline receives each additive "
+           "error of the alphabet from each helper in turn; on every run an honest helper must fail, or both honest helpers must open "
+           "exactly the untampered values. Honest runs must validate and open the product.",
+      note="Bounds: <= 3 (5) records, 16 lanes; additive alphabets as listed.")
